@@ -29,6 +29,8 @@ func nameRoles() []nameRole {
 		{"copy-destination", "src := []int{3, 7, 9}\nNAME := []int{}\nn := copy(NAME, src)\nprint(n, len(NAME), NAME[1], NAME[2])\n"},
 		{"global-next-to-function-local", "NAME := 1\nfunc g() int {\n\tx := 42\n\tNAME = NAME + 0\n\treturn x\n}\nfunc h(y int) int {\n\treturn y + g()\n}\nprint(g(), h(1), NAME)\n"},
 		{"local-next-to-callee-local", "func r() int {\n\tn := 20\n\treturn n\n}\nfunc f() int {\n\tNAME := 2\n\tk := r()\n\treturn k + NAME\n}\nprint(f())\n"},
+		{"second-name-of-short-definition", "Cap := 10\nstep, NAME := 1, 2\nprint(Cap, step, NAME)\nCap = Cap + NAME\nprint(Cap, NAME)\n"},
+		{"local-next-to-parameter", "func f(Rst int, d int) int {\n\tq, NAME := Rst / d, Rst % d\n\treturn q + NAME + Rst\n}\nprint(f(7, 2))\n"},
 		{"slice-variable", "NAME := []string{\"a\"}\nNAME[1] = \"b\"\nc := []string{}\nprint(copy(c, NAME), len(NAME), NAME[1], c[0])\n"},
 	}
 }
@@ -160,7 +162,32 @@ func CheckC10(r *Run) int {
 				out = append(out, nameCand{Role: role.name, Spelling: string(sp), Because: fmt.Sprintf("emitted name %s can equal %q", sw.String(), w)})
 			}
 		}
-		_ = B
+		// spellings that differ from another identifier of the program only in letter case
+		for _, other := range otherIdentifiers(role.src) {
+			if len(other) != n {
+				continue
+			}
+			fold := B.True
+			for i, b := range nameBytes {
+				lo, up := strings.ToLower(other[i : i+1])[0], strings.ToUpper(other[i : i+1])[0]
+				fold = B.And(fold, B.Or(B.Eq(b, B.BV(uint64(lo), 8)), B.Eq(b, B.BV(uint64(up), 8))))
+			}
+			block := B.True
+			for k := 0; k < 3; k++ {
+				res, m := c.Sat(fold, block)
+				if res != sym.Sat {
+					break
+				}
+				sp := make([]byte, n)
+				var same []*sym.Term
+				for i, b := range nameBytes {
+					sp[i] = byte(m[b.Name])
+					same = append(same, B.Eq(b, B.BV(m[b.Name], 8)))
+				}
+				block = B.And(block, B.Not(B.And(same...)))
+				out = append(out, nameCand{Role: role.name, Spelling: string(sp), Because: fmt.Sprintf("differs from the identifier %q only in letter case", other)})
+			}
+		}
 		return nameOutcome{Kind: "accepted", Cands: out}
 	}, gosym.ExploreOpts{Workers: r.Workers, TimeoutMS: 10000, Budget: gosym.Budget{MaxPaths: 400000, Steps: 30_000_000}, OnPath: func(pr *gosym.PathResult) {
 		o, ok := pr.Ret.(nameOutcome)
